@@ -283,9 +283,46 @@ func (en *Engine) execInvoke(st *State, f *Frame, x *ssa.Call, recv Value, m *ty
 			f.env[x] = en.freshValue(st, rt, "method."+m.Name())
 		}
 	default:
-		fail("invoke of %s on an unknown dynamic type at %s", m.Name(), pos)
+		// several results (e.g. io.Reader.Read): all arbitrary; slice arguments may be overwritten
+		var tv TupleV
+		for i := 0; i < sig.Results().Len(); i++ {
+			tv = append(tv, en.freshValue(st, sig.Results().At(i).Type(), fmt.Sprintf("method.%s.%d", m.Name(), i)))
+		}
+		if m.Name() == "Read" && len(args) == 1 {
+			// io.Reader contract: 0 <= n <= len(p)
+			if s, ok := args[0].(SliceV); ok {
+				if n, ok := tv[0].(*Term); ok {
+					st.assume(Le(ConstI(0), n))
+					st.assume(Le(n, en.sliceLen(s)))
+				}
+				st.entropyReads = append(st.entropyReads, en.sliceLen(s))
+			}
+		}
+		f.env[x] = tv
 	}
-	en.externCalls[fmt.Sprintf("%s: dynamic call %s on caller-supplied interface", en.curFunc, m.Name())] = true
+	// an unknown method may write through any slice or pointer it is handed
+	for _, a := range args {
+		switch v := a.(type) {
+		case SliceV:
+			if v.R != nil {
+				en.checkWrite(st, v.R, v.Path, v.Off, v.Len, pos)
+				en.havocSlice(st, v)
+			}
+		case PtrV:
+			if v.R != nil {
+				en.checkWrite(st, v.R, v.Path, nil, nil, pos)
+				var facts []*Term
+				t := v.R.typ
+				c, et := en.loadPath(st, en.regionCell(st, v.R), v.Path, t)
+				_ = c
+				st.mem[v.R] = en.storePath(st, en.regionCell(st, v.R), v.Path, v.R.typ, freshCell(et, v.R.name+".m", &facts))
+				for _, fc := range facts {
+					st.assume(fc)
+				}
+			}
+		}
+	}
+	en.externCalls[fmt.Sprintf("%s: dynamic call %s on caller-supplied interface (arbitrary results; may overwrite the slices/pointers it is given)", en.curFunc, m.Name())] = true
 	return nil
 }
 
